@@ -16,5 +16,5 @@ SPEC = {
     "parallel": 16,
     "assumptions": ["consensus config V12",
                     "the signer of a transaction is recovered by the harness with the crypto primitives (crypto.SignatureHash + Ecrecover), not with types.Sender",
-                    "reading of 'an inviter terminating its own invitee': the relationship the ledger records (Identity.Inviter of the target), except that an identity that terminated itself is no longer the inviter of invitees that had activated their invitation (KillTx severs the links with everybody on the inviter's invitee list). Observed and NOT counted as a violation: invitations that were never activated are not on that list, so on the unchanged tree a terminated identity can still send KillInviteeTx to them (and destroy stake somebody added to such an invitation) - the ledger still names it as their inviter"],
+                    "reading of 'an inviter terminating its own invitee': the relationship the ledger records (Identity.Inviter of the target), except that an identity whose own KillTx the harness saw included (and that was not invited again since) is no longer the inviter of invitees that had activated their invitation (KillTx severs the links with everybody on the inviter's invitee list). Observed and NOT counted as a violation: invitations that were never activated are not on that list, so on the unchanged tree a terminated identity can still send KillInviteeTx to them (and destroy stake somebody added to such an invitation) - the ledger still names it as their inviter"],
 }
